@@ -475,7 +475,8 @@ class Ctx:
                     text = cxx2lean.generate(cxx2lean.load_spec(spec_name), REPO, out)
                     rec[spec_name] = {"generated": rel, "functions": len(re.findall(r"^def ", text, re.M)), "bridge": bridge,
                                       "sha1": hashlib.sha1(text.encode()).hexdigest()[:12]}
-                    bridges.append(bridge)
+                    if bridge not in bridges:
+                        bridges.append(bridge)
                 except (cxx2lean.Refuse, OSError) as ex:
                     rec[spec_name] = {"generated": rel, "refused": str(ex), "bridge": bridge}
                     self.violation("translate/cxx2lean.py (spec %s) refuses the current source: %s — the regenerated model is stale, so "
